@@ -1545,6 +1545,301 @@ class StTr:
         return self.after_loop(call, raises, rty, carried, outs, k)
 
 
+# ----------------------------------------------------------------------------- block-assembled matrices (entry-wise reading)
+
+class Sym:
+    """a NumPy array read entry-wise.  kind: vec (f(p) -> V over the points of one diagram), pvec (f(p) -> (V, V)),
+    col/row (a vec broadcast along rows / columns), pcol/prow, mat (f(p, q) -> V), pmat (f(p, q) -> (V, V)),
+    inf / zeros (constant matrices), diag (inf off the diagonal, f(p) on it), m22 (a literal 2x2 matrix)"""
+    def __init__(self, kind, dims, f=None):
+        self.kind, self.dims, self.f = kind, dims, f
+
+
+class MatTr:
+    """entry-wise reading of the NumPy block assignments that build the augmented (M+N)x(M+N) matrix `D` of
+    bottleneck / wasserstein: `S`, `T` are the two point lists (M = len S, N = len T); a vector derived from `S`
+    (`S[:, k]`, arithmetic on it) is a function of the point `S[i]`, a broadcast `u[:, None] (op) v[None, :]` is a
+    function of `(S[i], T[j])`, `np.inf * np.ones((M, M))` with `np.fill_diagonal(·, v)` is `v(S[i])` on the
+    diagonal and inf off it, `D[0:M, 0:N] = X` / `D[0:M, N::] = X` / `D[M::, 0:N] = X` write the quadrants of `D`
+    (rows < M or not, columns < N or not); what is not written keeps `np.zeros`."""
+    def __init__(self, src, cfg):
+        self.src, self.cfg = src, cfg
+        self.sc = StTr(src, None, cfg, [])
+        self.env = {"S": Sym("pvec", ("M",), lambda p: (comp(p, 0), comp(p, 1))),
+                    "T": Sym("pvec", ("N",), lambda p: (comp(p, 0), comp(p, 1))),
+                    "M": "M", "N": "N"}
+        self.quad = {}
+        self.dname = None
+
+    def dim(self, node):
+        t = ast.unparse(node)
+        if t in ("M", "N"):
+            return t
+        if t in ("M + N", "N + M"):
+            return "MN"
+        raise Shape("dimension %s" % t)
+
+    def shape2(self, node):
+        if not (isinstance(node, ast.Tuple) and len(node.elts) == 2):
+            raise Shape("shape %s" % ast.unparse(node))
+        return (self.dim(node.elts[0]), self.dim(node.elts[1]))
+
+    def scal(self, op, a, b):
+        return self.sc.arith(op, a, b)
+
+    def lift2(self, fn, a, b):
+        """elementwise binary operation with NumPy broadcasting on the supported kinds"""
+        def k(x):
+            return x.kind if isinstance(x, Sym) else "s"
+        ka, kb = k(a), k(b)
+        if ka == "s" and kb == "s":
+            return fn(a, b)
+        if ka == "s" or kb == "s":
+            arr, left = (b, False) if ka == "s" else (a, True)
+            sv = a if ka == "s" else b
+            if arr.kind in ("vec", "col", "row"):
+                return Sym(arr.kind, arr.dims, lambda p: fn(arr.f(p), sv) if left else fn(sv, arr.f(p)))
+            if arr.kind == "mat":
+                return Sym("mat", arr.dims, lambda p, q: fn(arr.f(p, q), sv) if left else fn(sv, arr.f(p, q)))
+            raise Shape("scalar (op) %s" % arr.kind)
+        if ka == kb == "vec" and a.dims == b.dims:
+            return Sym("vec", a.dims, lambda p: fn(a.f(p), b.f(p)))
+        if ka == kb == "mat" and a.dims == b.dims:
+            return Sym("mat", a.dims, lambda p, q: fn(a.f(p, q), b.f(p, q)))
+        if ka == "col" and kb == "row":
+            return Sym("mat", (a.dims[0], b.dims[0]), lambda p, q: fn(a.f(p), b.f(q)))
+        if ka == "pcol" and kb == "prow":
+            return Sym("pmat", (a.dims[0], b.dims[0]),
+                       lambda p, q: tuple(fn(x, y) for x, y in zip(a.f(p), b.f(q))))
+        raise Shape("broadcast of %s with %s" % (ka, kb))
+
+    def ev(self, node):
+        if isinstance(node, ast.Name):
+            if node.id not in self.env:
+                raise Shape("name %s is not bound in the region" % node.id)
+            return self.env[node.id]
+        if isinstance(node, ast.Constant):
+            return self.sc.lit(node)
+        if isinstance(node, ast.UnaryOp) and isinstance(node.op, ast.USub):
+            v = self.ev(node.operand)
+            if isinstance(v, Sym):
+                raise Shape("negation of an array")
+            return V("-%s" % paren(v, 100), v.ty, 66)
+        if isinstance(node, ast.Subscript):
+            base = self.ev(node.value)
+            sl = ast.unparse(node)[len(ast.unparse(node.value)) + 1:-1]
+            if not isinstance(base, Sym):
+                raise Shape("subscript %s" % ast.unparse(node))
+            if base.kind == "pvec" and sl in (":, 0", ":, 1"):
+                k = int(sl[-1])
+                return Sym("vec", base.dims, lambda p: base.f(p)[k])
+            if base.kind == "pvec" and sl == ":, 0:2":
+                return base
+            if base.kind == "vec" and sl == ":, None":
+                return Sym("col", base.dims, base.f)
+            if base.kind == "vec" and sl == "None, :":
+                return Sym("row", base.dims, base.f)
+            if base.kind == "pvec" and sl == ":, None, :":
+                return Sym("pcol", base.dims, base.f)
+            if base.kind == "pvec" and sl == "None, :, :":
+                return Sym("prow", base.dims, base.f)
+            raise Shape("subscript %s" % ast.unparse(node))
+        if isinstance(node, ast.BinOp):
+            if isinstance(node.op, ast.Pow):
+                if not (isinstance(node.right, ast.Constant) and node.right.value == 2):
+                    raise Shape("power other than 2")
+                a = self.ev(node.left)
+                sq = lambda x: self.scal(ast.Mult(), x, x)       # noqa: E731
+                if isinstance(a, Sym) and a.kind == "pmat":
+                    return Sym("pmat", a.dims, lambda p, q: tuple(sq(x) for x in a.f(p, q)))
+                if isinstance(a, Sym):
+                    raise Shape("square of %s" % a.kind)
+                return sq(a)
+            # np.inf * np.ones((M, M))
+            if isinstance(node.op, ast.Mult) and ast.unparse(node.left) == "np.inf" and isinstance(node.right, ast.Call) \
+                    and dotted(node.right.func) == "np.ones" and len(node.right.args) == 1 and not node.right.keywords:
+                return Sym("inf", self.shape2(node.right.args[0]))
+            # 0.5 * e  is  e / 2   (exact arithmetic; the models divide by the numeral 2)
+            if isinstance(node.op, ast.Mult) and isinstance(node.left, ast.Constant) and node.left.value == 0.5 \
+                    and not isinstance(node.left.value, bool):
+                two = V("2", None, lit=2)
+                return self.lift2(lambda x, y: self.scal(ast.Div(), x, y), self.ev(node.right), two)
+            a, b = self.ev(node.left), self.ev(node.right)
+            if isinstance(node.op, ast.Div) and not isinstance(a, Sym) and not isinstance(b, Sym):
+                # np.pi / 4 and the like never reach here: cos/sin of them are parameters
+                pass
+            return self.lift2(lambda x, y: self.scal(node.op, x, y), a, b)
+        if isinstance(node, ast.Call):
+            return self.call(node)
+        raise Shape("expression %s" % type(node).__name__)
+
+    def call(self, node):
+        f = node.func
+        if isinstance(f, ast.Attribute) and f.attr == "dot" and len(node.args) == 1 and not node.keywords:
+            x, r = self.ev(f.value), self.ev(node.args[0])
+            if not (isinstance(x, Sym) and x.kind == "pvec" and isinstance(r, Sym) and r.kind == "m22"):
+                raise Shape("dot outside `points.dot(2x2 matrix)`")
+            m = r.f
+            add, mul = (lambda a, b: self.scal(ast.Add(), a, b)), (lambda a, b: self.scal(ast.Mult(), a, b))
+
+            def rot(p):
+                a, b = x.f(p)
+                return (add(mul(a, m[0][0]), mul(b, m[1][0])), add(mul(a, m[0][1]), mul(b, m[1][1])))
+            return Sym("pvec", x.dims, rot)
+        name = dotted(f)
+        h = self.cfg.get("mcalls", {}).get(name)
+        if h is None:
+            raise Shape("call of %s is not in this target's table" % name)
+        if h[0] == "fn1":
+            if len(node.args) != 1 or node.keywords:
+                raise Shape("%s expects one argument" % name)
+            a = self.ev(node.args[0])
+            g = lambda x: V("%s %s" % (h[1], paren(x, 100)), A, 90)      # noqa: E731
+            if not isinstance(a, Sym):
+                return g(a)
+            if a.kind in ("vec", "col", "row"):
+                return Sym(a.kind, a.dims, lambda p: g(a.f(p)))
+            if a.kind == "mat":
+                return Sym("mat", a.dims, lambda p, q: g(a.f(p, q)))
+            raise Shape("%s of %s" % (name, a.kind))
+        if h[0] == "fn2":
+            if len(node.args) != 2 or node.keywords:
+                raise Shape("%s expects two arguments" % name)
+            return self.lift2(lambda x, y: V("%s %s %s" % (h[1], paren(x, 100), paren(y, 100)), A, 90),
+                              self.ev(node.args[0]), self.ev(node.args[1]))
+        if h[0] == "sum_axis2":
+            if len(node.args) != 1 or [(k.arg, ast.unparse(k.value)) for k in node.keywords] != [("axis", "2")]:
+                raise Shape("np.sum outside `np.sum(x, axis=2)`")
+            a = self.ev(node.args[0])
+            if not (isinstance(a, Sym) and a.kind == "pmat"):
+                raise Shape("np.sum(axis=2) of something that is not a matrix of points")
+            return Sym("mat", a.dims, lambda p, q: self.scal(ast.Add(), *a.f(p, q)))
+        if h[0] == "zeros":
+            if len(node.args) != 1 or node.keywords:
+                raise Shape("np.zeros")
+            return Sym("zeros", self.shape2(node.args[0]))
+        if h[0] == "param":                              # cp = np.cos(np.pi / 4): a parameter of the model
+            if ast.unparse(node) != h[2]:
+                raise Shape("expected `%s`" % h[2])
+            return V(h[1], A)
+        if h[0] == "array22":
+            ok = (len(node.args) == 1 and not node.keywords and isinstance(node.args[0], ast.List) and len(node.args[0].elts) == 2
+                  and all(isinstance(r, ast.List) and len(r.elts) == 2 for r in node.args[0].elts))
+            if not ok:
+                raise Shape("np.array outside a literal 2x2 matrix")
+            rows = [[self.ev(e) for e in r.elts] for r in node.args[0].elts]
+            if any(isinstance(e, Sym) for r in rows for e in r):
+                raise Shape("2x2 matrix of arrays")
+            return Sym("m22", ("2", "2"), rows)
+        raise Shape("internal: matrix handler %s" % h[0])
+
+    def stmt(self, s):
+        if isinstance(s, ast.Assign) and len(s.targets) == 1:
+            t = s.targets[0]
+            if isinstance(t, ast.Name):
+                self.env[t.id] = self.ev(s.value)
+                if isinstance(self.env[t.id], Sym) and self.env[t.id].kind == "zeros" and self.env[t.id].dims == ("MN", "MN"):
+                    self.dname, self.quad = t.id, {}
+                return
+            if isinstance(t, ast.Tuple) and isinstance(s.value, ast.Tuple) and len(t.elts) == len(s.value.elts) \
+                    and all(isinstance(e, ast.Name) for e in t.elts):
+                vals = [self.ev(e) for e in s.value.elts]
+                for e, v in zip(t.elts, vals):
+                    self.env[e.id] = v
+                return
+            if isinstance(t, ast.Subscript) and isinstance(t.value, ast.Name) and t.value.id == self.dname \
+                    and isinstance(t.slice, ast.Tuple) and len(t.slice.elts) == 2:
+                rs, cs = [ast.unparse(e).replace(" ", "") for e in t.slice.elts]
+                rows = {"0:M": "top", "M::": "bottom", "M:": "bottom", "M:N+M": "bottom", "M:M+N": "bottom"}.get(rs)
+                cols = {"0:N": "left", "N::": "right", "N:": "right", "N:N+M": "right", "N:M+N": "right"}.get(cs)
+                if rows is None or cols is None:
+                    raise Shape("block %s[%s, %s]" % (self.dname, rs, cs))
+                v = self.ev(s.value)
+                want = {("top", "left"): ("M", "N"), ("top", "right"): ("M", "M"), ("bottom", "left"): ("N", "N"),
+                        ("bottom", "right"): ("N", "M")}[(rows, cols)]
+                if not isinstance(v, Sym) or v.dims != want or v.kind not in ("mat", "diag", "inf", "zeros"):
+                    raise Shape("block %s[%s, %s] = something of the wrong shape" % (self.dname, rs, cs))
+                if v.kind == "diag" and want[0] != want[1]:
+                    raise Shape("a diagonal in a non-square block")
+                self.quad[(rows, cols)] = v
+                return
+        if isinstance(s, ast.Expr) and isinstance(s.value, ast.Call) and dotted(s.value.func) == "np.fill_diagonal" \
+                and len(s.value.args) == 2 and not s.value.keywords and isinstance(s.value.args[0], ast.Name):
+            nm = s.value.args[0].id
+            a = self.env.get(nm)
+            if nm == self.dname and ast.unparse(s.value.args[1]) == "0" and not self.quad:
+                return                                      # np.fill_diagonal(D, 0) on the fresh zero matrix
+            v = self.ev(s.value.args[1])
+            if not (isinstance(a, Sym) and a.kind == "inf" and a.dims[0] == a.dims[1] and isinstance(v, Sym) and v.kind == "vec"
+                    and v.dims == (a.dims[0],)):
+                raise Shape("np.fill_diagonal outside `fill_diagonal(inf-matrix, vector of its size)`")
+            self.env[nm] = Sym("diag", a.dims, v.f)
+            return
+        raise Shape("statement `%s` in the matrix region" % ast.unparse(s).split("\n")[0][:60])
+
+    def entry_text(self):
+        fin, top = self.cfg["fin"], self.cfg["top"]
+        sp, tp = V("S[i]", PA), V("T[j]", PA)
+
+        def cell(q, diag_pt):
+            v = self.quad.get(q)
+            if v is None or v.kind == "zeros":
+                return None
+            return v
+        tl, tr, bl, br = [self.quad.get(q) for q in (("top", "left"), ("top", "right"), ("bottom", "left"), ("bottom", "right"))]
+
+        def scalar_text(v):
+            v = self.sc.cast(v, A)
+            return fin % atom(v.t)
+        zero = fin % "0"
+
+        def full(v, p, q):
+            if v is None or v.kind == "zeros":
+                return zero
+            if v.kind == "inf":
+                return top
+            if v.kind == "mat":
+                return scalar_text(v.f(p, q))
+            raise Shape("internal: block kind")
+
+        def square(v, p, cond):
+            if v is None or v.kind == "zeros":
+                return zero
+            if v.kind == "inf":
+                return top
+            if v.kind == "diag":
+                return "if %s then %s else %s" % (cond, scalar_text(v.f(p)), top)
+            raise Shape("a full matrix in a diagonal block")
+        if br is not None and br.kind != "zeros":
+            raise Shape("the lower right block is written")
+        lines = ["  if hi : i < S.length then",
+                 "    if hj : j < T.length then %s" % full(tl, sp, tp),
+                 "    else %s" % square(tr, sp, "j - T.length = i"),
+                 "  else",
+                 "    if hj : j < T.length then",
+                 "      (%s)" % square(bl, tp, "i - S.length = j"),
+                 "    else %s" % zero]
+        return "\n".join(lines)
+
+
+def translate_matrix(src, fns, cfg):
+    fn = fns.get(cfg["func"])
+    if fn is None:
+        raise Shape("function %s not found" % cfg["func"])
+    check_signature(cfg, fn)
+    stmts, skeleton = find_region(cfg, fn)
+    mt = MatTr(src, cfg)
+    for st in stmts:
+        mt.stmt(st)
+    if mt.dname != cfg["matrix"]:
+        raise Shape("the matrix %s is not built in the region" % cfg["matrix"])
+    sig = " ".join("(%s : %s)" % (n, t) for n, t in cfg.get("fparams", []))
+    text = "def %s %s(S T : List (α × α)) (i j : Nat) : %s :=\n%s" % (cfg["lean"], sig + " " if sig else "", cfg["result"],
+                                                                        mt.entry_text())
+    out = {"defs": [text], "skeleton": skeleton, "defaults": None, "booldefaults": None}
+    return out
+
+
 # ----------------------------------------------------------------------------- regions, signatures
 
 def index_source(tree):
@@ -1593,6 +1888,11 @@ def find_region(cfg, fn):
                         if len(picked) != cfg["count"]:
                             raise Shape("the region %r … %r of %s has %d statements, expected %d"
                                         % (cfg["first"], cfg["last"], fn.name, len(picked), cfg["count"]))
+                        if cfg.get("skeleton_mode") == "before":      # only what prepares the region's inputs
+                            if holder is not fn:
+                                raise Shape("the region of %s is not at the top level of the function" % fn.name)
+                            k0 = [id(x) for x in body].index(id(picked[0]))
+                            return list(picked), unparse_with_holes(body[:k0 + len(picked)], {id(s) for s in picked}, collapse=True)
                         return list(picked), unparse_with_holes(body, {id(s) for s in picked}, collapse=True)
         raise Shape("the region %r … %r was not found in %s" % (cfg["first"], cfg["last"], fn.name))
     raise Shape("internal: region %s" % region)
@@ -1747,7 +2047,7 @@ def render_file(key, root):
         res = None
         if err is None:
             try:
-                res = translate(src, fns, classes, cfg)
+                res = translate_matrix(src, fns, cfg) if cfg.get("matrix") else translate(src, fns, classes, cfg)
             except Shape as e:
                 err = "Shape: %s" % e
             except Exception as e:               # anything else the source makes the translator do: outside the subset
@@ -2130,6 +2430,41 @@ TARGETS += [
                     "descending (`none` = +inf first)")]),
 ]
 
+# ---- persim/bottleneck.py, persim/wasserstein.py : the augmented matrix, entry by entry  ->  augD / augEntry (C01, C02)
+PREP_SKELETON = (
+    "S = np.array(dgm1, dtype=float)\nM = min(S.shape[0], S.size)\nif S.size > 0:\n    S = S[np.isfinite(S[:, 1]), :]\n"
+    "    if S.shape[0] < M:\n        warnings.warn('dgm1 has points with non-finite death times;' + 'ignoring those points')\n"
+    "        M = S.shape[0]\nT = np.array(dgm2, dtype=float)\nN = min(T.shape[0], T.size)\nif T.size > 0:\n"
+    "    T = T[np.isfinite(T[:, 1]), :]\n    if T.shape[0] < N:\n"
+    "        warnings.warn('dgm2 has points with non-finite death times;' + 'ignoring those points')\n        N = T.shape[0]\n"
+    "if M == 0:\n    S = np.array([[0, 0]])\n    M = 1\nif N == 0:\n    T = np.array([[0, 0]])\n    N = 1\n...")
+
+TARGETS += [
+    dict(file="bottleneck", func="bottleneck", lean="aug_entry", region="range_in", skeleton_mode="before",
+         first="Sb, Sd = (S[:, 0], S[:, 1])", last="D[M:, 0:N] = UL", count=13, matrix="D",
+         pyparams=["dgm1", "dgm2", "matching"],
+         variables="[Sub α] [Div α] [Neg α] [Zero α] [OfNat α 2] [Max α] [LE α] [DecidableLE α]",
+         result="Ext α", fin=".fin %s", top=".top",
+         mcalls={"np.abs": ("fn1", "absM"), "np.maximum": ("fn2", "max"), "np.zeros": ("zeros",)},
+         skeleton="return_matching = matching\n" + PREP_SKELETON,
+         obligations=[("src_aug_entry_eq_model", "", "aug_entry (α := α) = augD", "rfl",
+                       "the block assignments `D[0:M, 0:N] = max(|Sb - Tb|, |Sd - Td|)`, `D[0:M, N::]` / `D[M::, 0:N]` = inf with "
+                       "`0.5 * (death - birth)` on the diagonal, zeros elsewhere, read entry by entry: the model's `augD`")]),
+    dict(file="wasserstein", func="wasserstein", lean="aug_entry", region="range_in", skeleton_mode="before",
+         first="DUL = np.sqrt(np.sum((S[:, None, :] - T[None, :, :]) ** 2, axis=2))", last="D[M:N + M, 0:N] = UL", count=15,
+         matrix="D", pyparams=["dgm1", "dgm2", "matching"],
+         variables="[Add α] [Sub α] [Mul α] [Neg α] [Zero α]", fparams=[("sqrt", "α → α"), ("cp sp", "α")],
+         result="Option α", fin="some %s", top="none",
+         mcalls={"np.sqrt": ("fn1", "sqrt"), "np.sum": ("sum_axis2",), "np.zeros": ("zeros",),
+                 "np.cos": ("param", "cp", "np.cos(np.pi / 4)"), "np.sin": ("param", "sp", "np.sin(np.pi / 4)"),
+                 "np.array": ("array22",)},
+         skeleton=PREP_SKELETON,
+         obligations=[("src_aug_entry_eq_model", "", "aug_entry (α := α) = augEntry", "rfl",
+                       "`DUL` from the coordinate differences, the rotation by `R = [[cp, -sp], [sp, cp]]`, the three block "
+                       "assignments with the rotated second coordinate on the diagonals, read entry by entry: the model's "
+                       "`augEntry` (`cp`, `sp` = `cos(pi/4)`, `sin(pi/4)` are parameters of the model)")]),
+]
+
 FILES = {
     # key: (python source, generated Lean file, Lean namespace, imports, property, opened namespaces)
     "imager": ("persim/images.py", "SrcImager.lean", "PersimVerif.Src.images",
@@ -2143,6 +2478,10 @@ FILES = {
               "PersimVerif.Model.Graph\nimport PersimVerif.Lemmas.SrcBridgeGraph", "C17", "PersimVerif.Graph"),
     "approx": ("persim/landscapes/approximate.py", "SrcApprox.lean", "PersimVerif.Src.landscapes_approximate",
                "PersimVerif.Model.Approx", "C08", "PersimVerif.Approx"),
+    "bottleneck": ("persim/bottleneck.py", "SrcBottleneck.lean", "PersimVerif.Src.bottleneck",
+                   "PersimVerif.Model.Bottleneck", "C01", "PersimVerif.Bottleneck"),
+    "wasserstein": ("persim/wasserstein.py", "SrcWasserstein.lean", "PersimVerif.Src.wasserstein",
+                    "PersimVerif.Model.Wasserstein", "C02", "PersimVerif.Wasserstein"),
 }
 BRIDGES = {"imager": ["PersimVerif/Lemmas/SrcLib.lean", "PersimVerif/Lemmas/SrcBridgeImager.lean"],
            "landscaper": ["PersimVerif/Lemmas/SrcLib.lean", "PersimVerif/Lemmas/SrcBridgeLandscaper.lean"],
